@@ -72,6 +72,10 @@ func MakeTree(root string, specs []FileSpec, seed int64) error {
 // directory) to "dir" or "<size>:<sha256>".
 func Digest(root string) (map[string]string, error) {
 	out := map[string]string{}
+	if _, err := os.Lstat(root); os.IsNotExist(err) {
+		// nothing was created (e.g. the receiver refused the manifest before touching the disk): an empty tree
+		return out, nil
+	}
 	err := filepath.WalkDir(root, func(p string, d fs.DirEntry, err error) error {
 		if err != nil {
 			return err
